@@ -168,6 +168,41 @@ _SQR = z3.Function("sq", z3.RealSort(), z3.RealSort())
 _SQI = z3.Function("sqi", z3.IntSort(), z3.IntSort())
 
 
+_TRUNC = z3.Function("trunc", z3.RealSort(), z3.IntSort())
+
+
+def real_as_int(v):
+    """Int term equal to the Real term v when v is built from integers only (ToReal, +, -, *, ite, integer numerals)"""
+    if z3.is_int(v):
+        return v
+    if z3.is_rational_value(v):
+        if v.denominator_as_long() == 1:
+            return z3.IntVal(v.numerator_as_long())
+        q = Fraction(v.numerator_as_long(), v.denominator_as_long())
+        return z3.IntVal(int(q))          # python int() truncates toward zero
+    if not z3.is_app(v):
+        return None
+    k = v.decl().kind()
+    if k == z3.Z3_OP_TO_REAL:
+        return v.arg(0)
+    if k in (z3.Z3_OP_ADD, z3.Z3_OP_SUB, z3.Z3_OP_MUL, z3.Z3_OP_UMINUS):
+        args = [real_as_int(a) for a in v.children()]
+        if any(a is None for a in args):
+            return None
+        if k == z3.Z3_OP_UMINUS:
+            return -args[0]
+        acc = args[0]
+        for a in args[1:]:
+            acc = acc + a if k == z3.Z3_OP_ADD else (acc - a if k == z3.Z3_OP_SUB else acc * a)
+        return acc
+    if k == z3.Z3_OP_ITE:
+        a, b = real_as_int(v.arg(1)), real_as_int(v.arg(2))
+        if a is None or b is None:
+            return None
+        return z3.If(v.arg(0), a, b)
+    return None
+
+
 class SF:
     """MATH-domain float: nan flag, real value, +inf / -inf flags (flags are python bools or z3 Bools)"""
     __slots__ = ("nan", "v", "pinf", "ninf")
@@ -288,7 +323,11 @@ class SF:
 
     def to_int(self):
         """numba float -> int64 cast: truncation toward zero, NaN -> INT64_MIN (x86 cvttsd2si)"""
-        t = z3.If(self.v >= 0, z3.ToInt(self.v), -z3.ToInt(-self.v))
+        t = real_as_int(self.v)
+        if t is None:
+            # truncation of a genuinely fractional term: uninterpreted (sound over-approximation; equal arguments
+            # still give equal results), because ToInt over symbolic quotients stalls the solver
+            t = _TRUNC(self.v)
         cb = conc_bool(self.nan)
         if cb is False:
             return z3.simplify(t)
